@@ -165,6 +165,8 @@ def find_counterexample(h, failed):
     """Run the harness with concrete playback and return the generated unit test text, if any."""
     sync()
     cmd = ["cargo", "kani", "-p", h["package"]] + FLAGS + ["-Z", "concrete-playback", "--concrete-playback=print", "--harness", h["harness"]]
+    if h.get("features"):
+        cmd += ["--features", h["features"]]
     env = dict(os.environ, CARGO_NET_OFFLINE="true", CARGO_TARGET_DIR=TARGET)
     try:
         p = subprocess.run(cmd, cwd=SRC, env=env, capture_output=True, text=True, timeout=h.get("timeout", 3600))
@@ -180,13 +182,47 @@ def find_counterexample(h, failed):
 
 
 def replay(d):
-    """Re-execute a recorded concrete playback test against the real code (cargo kani playback)."""
+    """Re-execute the recorded concrete-playback test against the real code: the generated #[test] is appended inside
+    the harness module of the scratch copy of /repo and run natively with `cargo kani playback`. Exit 1 if it fails
+    (= the violation reproduces), 0 if the test passes (= no longer reproduces)."""
+    global _synced
     cex = d["counterexample"]
+    _synced = False
     sync()
-    text = open(os.path.join(HARNESS_DIR, cex.get("harness_file", ""))).read() if cex.get("harness_file") else None
-    print(cex["test"])
-    print("(to re-execute: append the test above into the harness module and run `cargo kani playback -Z concrete-playback --only-codegen`)")
-    return 1
+    hfile = None
+    for fn in sorted(os.listdir(HARNESS_DIR)):
+        text = open(os.path.join(HARNESS_DIR, fn)).read()
+        if fn.endswith(".rs") and re.search(r"fn %s\b" % re.escape(cex["harness"]), text):
+            hfile = (fn, text)
+    if hfile is None:
+        print("harness %s not found" % cex["harness"])
+        return 2
+    m = re.match(r"//@kx file=(\S+) package=(\S+)(?: features=(\S+))?", hfile[1])
+    dst = os.path.join(SRC, m.group(1))
+    cur = open(dst).read()
+    k = cur.rstrip().rfind("}")
+    cur = cur[:k] + "\n" + cex["test"] + "\n}\n"
+    open(dst, "w").write(cur)
+    name = re.search(r"fn (kani_concrete_playback_\w+)", cex["test"]).group(1)
+    cmd = ["cargo", "kani", "playback", "-Z", "concrete-playback", "-p", m.group(2)]
+    if m.group(3):
+        cmd += ["--features", m.group(3)]
+    cmd += ["--", name]
+    env = dict(os.environ, CARGO_NET_OFFLINE="true", CARGO_TARGET_DIR=TARGET + "-playback")
+    print("$ " + " ".join(cmd))
+    p = subprocess.run(cmd, cwd=SRC, env=env, capture_output=True, text=True, timeout=3600)
+    out = p.stdout + p.stderr
+    tail = "\n".join(l for l in out.splitlines() if re.search(r"^test |panicked|^assertion|test result", l))
+    print(tail[-3000:])
+    _synced = False
+    if re.search(r"test result: FAILED|panicked", out):
+        print("REPLAY: violation reproduces on the real code with the recorded inputs")
+        return 1
+    if re.search(r"test result: ok. 1 passed", out):
+        print("REPLAY: recorded inputs no longer violate the obligation")
+        return 0
+    print(out[-1500:])
+    return 2
 
 
 if __name__ == "__main__":
